@@ -38,6 +38,34 @@ def eval_call(E, node, st):
                     return [Out("ok", s, v)]
                 return [Out("ok", s, V(Kind("seq", v.kind[1]), E.list_seq(s, v)))]
             return E.bind(E.eval(node.args[0], st), ki)
+        if f.id == "same_except" and E.spec_mode:
+            # same_except(d, k1, k2, ...): the dict d has the keys and values it had at entry, except possibly at
+            # the listed keys (which may be None: no key)
+            def kse(s, vs):
+                dv = vs[0]
+                if dv.kind.tag not in ("dict", "odict"):
+                    raise SpecError("same_except on %s" % (dv.kind,))
+                olds = s.copy()
+                olds.heap = dict(E.frame.old.heap)
+                K = sort_of(dv.kind[1])
+                keys = [E.coerce(k, dv.kind[1]).t for k in vs[1:] if k.kind.tag != "none"]
+                names = [("DK|%s|%s" % (dv.kind[1], dv.kind[2]), z3.ArraySort(K, z3.BoolSort()))]
+                ks = alts(dv.kind[2])
+                if len(ks) > 1:
+                    names.append(("DT|%s|%s" % (dv.kind[1], dv.kind[2]), z3.ArraySort(K, z3.IntSort())))
+                for k in ks:
+                    if k.tag != "none":
+                        names.append((E.dvals_key(dv, k), z3.ArraySort(K, sort_of(k))))
+                conj = []
+                for name, srt in names:
+                    cur = z3.Select(E.arr(s, name, z3.IntSort(), srt), dv.t)
+                    old = z3.Select(E.arr(olds, name, z3.IntSort(), srt), dv.t)
+                    upd = old
+                    for kt in keys:
+                        upd = z3.Store(upd, kt, z3.Select(cur, kt))
+                    conj.append(cur == upd)
+                return [Out("ok", s, vbool(z3.And(conj)))]
+            return E.eval_seq(list(node.args), st, kse)
         if f.id == "now" and E.spec_mode:
             from .pymodel import clock_value
             return [Out("ok", st, V(REAL, clock_value(E, st)))]
